@@ -95,22 +95,26 @@ class Val(object):
 class LiveSrc(object):
     """input iterator of Val objects that knows how many of the values it produced are still alive"""
 
-    def __init__(self, n):
+    def __init__(self, n, track=False):
         self.n = n
+        self.track = track          # record which values are alive at every pull (not only how many)
         self.pulled = 0
         self.live = 0
-        self._refs = set()
+        self._refs = {}
         self.alive_at_pull = []     # number of live earlier values at the moment value i is asked for
 
     def _dead(self, r):
         self.live -= 1
-        self._refs.discard(r)
+
+    def alive(self):
+        """indices of the input values that are alive"""
+        return [i for i, r in sorted(self._refs.items()) if r() is not None]
 
     def __iter__(self):
         return self
 
     def __next__(self):
-        self.alive_at_pull.append(self.live)
+        self.alive_at_pull.append(self.alive() if self.track else self.live)
         if self.n is not None and self.pulled >= self.n:
             raise StopIteration
         if self.pulled >= BUDGET:
@@ -118,7 +122,7 @@ class LiveSrc(object):
         v = Val(self.pulled)
         self.pulled += 1
         self.live += 1
-        self._refs.add(weakref.ref(v, self._dead))
+        self._refs[v.i] = weakref.ref(v, self._dead)
         return v
 
 
@@ -139,6 +143,16 @@ SELECTORS = {
     "lt3": lambda i: i < 3,
     "ge2": lambda i: i >= 2,
 }
+
+
+def selected(name, i):
+    """selectors are opaque to the elements: on the fresh continuation values of the oracle (origins >= 1000) every
+    selector accepts the F family (1000..1999) and rejects the G family (>= 2000)"""
+    if i >= 2000:
+        return False
+    if i >= 1000:
+        return True
+    return SELECTORS[name](i)
 
 
 def _origin(value):
@@ -298,10 +312,10 @@ class MMap(object):
 
 class MFilter(object):
     def __init__(self, sel):
-        self.p = SELECTORS[sel]
+        self.sel = sel
 
     def run(self, xs):
-        return [x for x in xs if self.p(x[0][0])]
+        return [x for x in xs if selected(self.sel, x[0][0])]
 
 
 class MSlice(object):
@@ -338,13 +352,13 @@ class MSeq(object):
 
 class MRunIf(object):
     def __init__(self, sel, els):
-        self.p = SELECTORS[sel]
+        self.sel = sel
         self.seq = MSeq(els)
 
     def run(self, xs):
         out = []
         for x in xs:
-            if self.p(x[0][0]):
+            if selected(self.sel, x[0][0]):
                 out.extend(self.seq.run([x]))
             else:
                 out.append(x)
@@ -377,6 +391,7 @@ class MSplit(object):
     def __init__(self, bufsize, branches):
         self.b = bufsize
         self.descs = branches
+        self.br = [MBranch(b) for b in branches]     # elements keep their state from one run to the next
 
     def run(self, xs):
         return self.run_blocks(xs, True)
@@ -385,7 +400,7 @@ class MSplit(object):
         xs = list(xs)
         if not self.descs:
             return xs
-        br = [MBranch(b) for b in self.descs]
+        br = self.br
         if self.b is None:
             blocks = [xs] if (xs and ended) else []
         else:
@@ -489,18 +504,24 @@ def det_table(d, I, inf):
         outs = model(d).run_blocks(I[:(0 if b is None else (n // b) * b)], False) if inf else model(d).run_blocks(I, True)
         out_inf = inf
     else:
+        # only a Slice can know that its output is complete before its input ends (a selector or a nested sequence is
+        # opaque).  tight: as soon as list slicing gives the same for every continuation; loose: a non-negative Slice
+        # may read up to its stop (documented islice behaviour), a negative one may read the whole flow (documented)
+        is_slice = d[0] == "slice"
+        nonneg = is_slice and kind_of(d) == "Slice.run"
+        # itertools.islice documents that it reads max(start, stop) values when it is exhausted
         nonneg_stop = None
-        if d[0] == "slice" and kind_of(d) == "Slice.run":
-            nonneg_stop = slice(*d[1]).stop
+        if nonneg and slice(*d[1]).stop is not None:
+            nonneg_stop = max(slice(*d[1]).start or 0, slice(*d[1]).stop)
         last = None
         for p in range(n + 1):
             pre = I[:p]
             res = [model(d).run(pre + e) for e in EXTS]
             c = _common(res)
             cnt.append(c)
-            complete = all(len(r) == c for r in res)
+            complete = is_slice and all(len(r) == c for r in res)
             tight.append(complete)
-            loose.append(complete and (nonneg_stop is None or p >= nonneg_stop))
+            loose.append(complete and nonneg and (nonneg_stop is None or p >= nonneg_stop))
             last = res[0]
         if inf:
             outs = model(d).run(I + F1)[:cnt[n]]
@@ -572,6 +593,38 @@ def oracle_selftest():
 
 
 # ------------------------------------------------------------------------------------------------ real execution
+def shares_contexts(pipe):
+    """Split(copy_buf=False) with several branches hands the same context object to all of them (documented), so a
+    Count further down marks the context of more than one result: the counter marks are then not compared"""
+    def walk(d):
+        if isinstance(d, list):
+            if d and d[0] == "split" and d[2] is False and len(d[3]) > 1:
+                return True
+            return any(walk(x) for x in d)
+        return False
+    if walk(pipe) and '"count"' in json.dumps(pipe):
+        return True
+    # a Count that is run once per block / per value adds to its total only when its run is completed; a Slice behind
+    # it in the same nested sequence abandons the run (laziness again), so the totals of later runs are not modelled
+    nested = json.dumps([d[2:] for d in pipe if d[0] in ("runif", "split")])
+    return '"count"' in nested and '"slice"' in nested
+
+
+def unique_counters(pipe):
+    """every Count gets its own name c1, c2, ... (two counters of one name would overwrite each other's mark, and the
+    value-level oracle would see results coincide that no element can know to coincide)"""
+    n = [0]
+
+    def walk(d):
+        if isinstance(d, list):
+            if d and d[0] == "count":
+                n[0] += 1
+                return ["count", "c%d" % n[0]]
+            return [walk(x) for x in d]
+        return d
+    return walk(pipe)
+
+
 def make_iter(pipe, src, mode):
     """build the pipeline and call run(): returns the result iterator"""
     if mode == "source":
@@ -616,6 +669,7 @@ def _step(it):
 
 def _check_pipeline(pipe, n, mode, stops, bad):
     orc = Oracle(pipe, n)
+    relax = shares_contexts(pipe)
     # ---- nothing happens when the pipeline is built and when run() / __call__() is called
     src = Src(n)
     WORK[0] = 0
@@ -658,7 +712,7 @@ def _check_pipeline(pipe, n, mode, stops, bad):
         if k > total:
             bad.append(("results-differ", "more results than the denotation has: %r, expected %r" % (results, orc.results)))
             return
-        if results[-1] != orc.results[k - 1]:
+        if (results[-1][0] != orc.results[k - 1][0]) if relax else (results[-1] != orc.results[k - 1]):
             bad.append(("results-differ", "result %d is %r, the denotation gives %r" % (k, results[-1], orc.results[k - 1])))
             return
         lo, hi = iv
@@ -670,8 +724,12 @@ def _check_pipeline(pipe, n, mode, stops, bad):
         if got < lo:
             bad.append(("pulled-less-than-determining-prefix", "after %d results (pulled, end seen) = %r < %r" % (k, got, lo)))
             return
+    if ended and len(results) < total:
+        bad.append(("results-differ", "the pipeline ended after %d results %r, the denotation gives %r%s"
+                    % (len(results), results, orc.results[:K_INF + 1], " ..." if orc.inf else "")))
+        return
     finite_out = not orc.inf
-    if finite_out and n is not None or (finite_out and len(results) == total):
+    if finite_out and len(results) >= total and orc.interval(total, True) is not None:
         # the consumer asks for more than there is: this must terminate, and (islice may read up to its stop)
         if not ended:
             st = _step(it)
@@ -815,7 +873,7 @@ def slice_neg_case(args, n):
     lagging = stop is not None and stop < 0 and (start is None or start >= 0)
     if n is None and not lagging:
         return bad          # a negative start needs the end of the flow: nothing to observe on an infinite input
-    src = LiveSrc(n)
+    src = LiveSrc(n, track=True)
     it = Slice(*args).run(src)
     if src.pulled or src.alive_at_pull:
         bad.append(("work-before-first-demand", "run() pulled %d values" % src.pulled))
@@ -832,8 +890,8 @@ def slice_neg_case(args, n):
                 del v
                 k = len(got)
                 if src.live > bound:
-                    bad.append(("keeps-more-than-index-alive", "after result %d was handed over and dropped, %d input values "
-                                "are still alive (documented: %d)" % (k, src.live, bound)))
+                    bad.append((_alive_clause(src.alive(), start, bound), "after result %d was handed over and dropped, %d "
+                                "input values are still alive: %r (documented: %d)" % (k, src.live, src.alive(), bound)))
                     break
                 if lagging:
                     # the k-th result is value number i = start + (k-1)*step; the input is lagged by exactly |stop|
@@ -849,15 +907,26 @@ def slice_neg_case(args, n):
         bad.append(("nonterminating", "infinite input pulled more than %d times" % BUDGET))
     if bad:
         return bad
-    if src.alive_at_pull and max(src.alive_at_pull) > bound:
-        j = [a > bound for a in src.alive_at_pull].index(True)
-        bad.append(("keeps-more-than-index-alive", "when input value %d is asked for, %d earlier input values are alive "
-                    "(documented: %d)" % (j, src.alive_at_pull[j], bound)))
+    for j, alive in enumerate(src.alive_at_pull):
+        if len(alive) > bound:
+            bad.append((_alive_clause(alive, start, bound), "when input value %d is asked for, %d earlier input values are "
+                        "alive: %r (documented: %d)" % (j, len(alive), alive, bound)))
+            break
     if expected is not None and got != expected:
         bad.append(("results-differ", "results %r, list slicing gives %r" % (got, expected)))
     if n is None and got != [(start or 0) + j * step for j in range(len(got))]:
         bad.append(("results-differ", "results %r on the infinite input" % (got,)))
     return bad
+
+
+def _alive_clause(alive, start, bound):
+    """more than |index| values alive.  Kept apart from a real breach of the deque bound: the values from `start` on
+    respect the bound and the surplus consists of at most two of the `start` SKIPPED values (pinned by the plumbing
+    of the skipping loop: a constant, not a growing buffer)"""
+    skipped = [i for i in alive if start is not None and i < start]
+    if 0 < len(skipped) <= 2 and len(alive) - len(skipped) <= bound:
+        return "skipped-value-kept-alive"
+    return "keeps-more-than-index-alive"
 
 
 def replay_slice_neg(args, n):
@@ -1035,7 +1104,9 @@ def rand_element(rng, depth):
                 branches.append(["src", rng.choice([50, 100]), rng.randint(0, 3)])
             else:
                 branches.append(["fc", rng.choice([None, 0, 1, 3])])
-        return ["split", rng.choice([1, 2, 3, 4, None, 1000]), rng.random() < 0.7, branches]
+        # copy_buf=False lets a Count branch mark the context another branch yields (documented sharing, C04's matter)
+        copy_buf = rng.random() < 0.7 or '"count"' in json.dumps(branches)
+        return ["split", rng.choice([1, 2, 3, 4, None, 1000]), copy_buf, branches]
     return ["f", "z"]
 
 
@@ -1047,6 +1118,7 @@ def body(R):
 
     def run_scope(pipes, ns, modes, stops=True):
         for pipe in pipes:
+            pipe = unique_counters(pipe)
             for n in ns:
                 for mode in modes:
                     bad = check_pipeline(pipe, n, mode, stops)
@@ -1084,7 +1156,7 @@ def body(R):
             "bufsize in {1,2,3,4,1000,None}, Slice indices in {None,0,1,2,3,5,-1,-2,-3}, step {None,1,2,3}), input length "
             "0..9 or infinite, Sequence or Source form; every consumer stop point and exhaustion" % n_rand, False)
     for _ in range(n_rand):
-        pipe = [rand_element(rng, 0) for _ in range(rng.randint(1, 4))]
+        pipe = unique_counters([rand_element(rng, 0) for _ in range(rng.randint(1, 4))])
         n = rng.choice([None, None] + list(range(10)))
         mode = rng.choice(["sequence", "sequence", "source"])
         try:
@@ -1136,6 +1208,8 @@ def body(R):
         for b in bufs:
             for cb in (True, False):
                 for n in nsl:
+                    if n is None and name == "id;slice(1,None)" and b == 1:
+                        continue        # every block of one value yields nothing: rightly never returns
                     bad = split_live_case(name, b, cb, n)
                     R.case(True, {"branches": name, "bufsize": b, "copy_buf": cb, "n": n})
                     for clause, text in bad:
